@@ -21,6 +21,14 @@ LEVEL_NOTE = ("Layered: the refractive indices n_p, n_s, n_i (beam.refractive_in
               "quantifier).")
 OPS = {"opt_idler", "delta_k", "k_eff", "dk_wavevector"}
 TOL = {"opt_idler": ("ulp", 4), "delta_k": ("rel", 1e-12, 1e-8), "k_eff": ("ulp", 2), "dk_wavevector": ("ulp", 4)}
+# COMPOSED end-to-end model (Model/Compose.lean, notes/compose.md): the K line carries the primitive setup only; the
+# model recomputes beams, principal and direction-dependent indices, external angles, walk-off, k_eff, apodisation
+# weights, wave vectors and Δk through all its layers.  Observed: bit-for-bit on every op (0 ulp over 3 × 3000 setups).
+OPS |= {"cmp_beams", "cmp_swap_beams", "cmp_indices", "cmp_theta_ext", "cmp_waist_pos", "cmp_walkoff", "cmp_keff",
+        "cmp_apod", "cmp_wavevectors", "cmp_deltak"}
+TOL.update({"cmp_beams": ("ulp", 4), "cmp_swap_beams": ("ulp", 4), "cmp_indices": ("ulp", 4), "cmp_theta_ext": ("ulp", 16),
+            "cmp_waist_pos": ("ulp", 16), "cmp_walkoff": ("rel", 1e-12, 1e-12), "cmp_keff": ("ulp", 2), "cmp_apod": ("ulp", 8),
+            "cmp_wavevectors": ("ulp", 8), "cmp_deltak": ("rel", 1e-12, 1e-8)})
 DEFAULT_TOL = ("exact",)
 RULE = ("family dk: 11 crystals × 5 PM types × crystal θ ∈ [0,π/2] (plus {0, π/2, any}) × φ × T 0–100 °C × in-window pump/signal "
         "wavelengths with idler in-window (¼ degenerate) × |θs| ≤ 0.3 (incl. 0 and log-small; 1/5 negative, own signatures) × φs × "
@@ -33,9 +41,9 @@ RULE = ("family dk: 11 crystals × 5 PM types × crystal θ ∈ [0,π/2] (plus {
         "through the object's methods")
 RESIDUAL = "none beyond floating-point rounding (the index values are C01/C02's)"
 ASSUMPTIONS = ["refractive indices are inputs of the model (layer C02)", "UCUM base values: M = RAD = 1.0, so x*M/RAD is the identity"]
-CHECKER_MODULES = ["Spdc.Real.DeltaK"]
+CHECKER_MODULES = ["Spdc.Real.DeltaK", "Spdc.Real.ComposeLemmas"]
 
 
 def families(tier, seed):
     n = 30000 if tier == "quick" else 300000
-    return [("dk", seed, n, [])]
+    return [("dk", seed, n, []), ("compose", seed, 2500 if tier == "quick" else 30000, ["c03"])]
